@@ -511,4 +511,11 @@ def _model_call(model, hook, e, a, env, ex):  # type: ignore[no-untyped-def]
     return None
 
 
-RULES = [r3_1, r3_2, r3_3, r3_4, r3_5, r3_6, r3_7]
+def r3_8(ctx: Ctx) -> RuleResult:
+    """The location parts of the matches the four selectors construct are those of the selected children (= R1.14: values and parts on covering small documents)."""
+    from .c01 import r1_14
+
+    return r1_14(ctx, "R3.8")
+
+
+RULES = [r3_1, r3_2, r3_3, r3_4, r3_5, r3_6, r3_7, r3_8]
